@@ -245,6 +245,47 @@ def run(ck: Check):
             if not torch.equal(got, want):
                 ck.disagree("eval mode of a converted layer is not the Boolean circuit of its logits", case,
                             signature={"what": "converted-model", "kind": "wrong"})
+    # a whole MODEL converted to 16-bit floats with wide class groups: the per-class count (up to 700 / 2500 active neurons) is not
+    # representable in bfloat16 (8 bits) / float16 (11 bits), so the count must not be accumulated in the model's dtype - the eval
+    # output is still exactly count / tau
+    from torchlogix.layers import GroupSum as _GS3
+    for front, dt, per_class, tau in (("dense-raw", torch.bfloat16, 700, 1.0), ("dense-raw", torch.float16, 2500, 2.0), ("dense-raw", torch.bfloat16, 300, 4.0),
+                                      ("dense-walsh", torch.bfloat16, 700, 1.0), ("conv2d-raw", torch.bfloat16, 484, 1.0),
+                                      ("conv2d-raw", torch.float16, 2904, 1.0), ("conv2d-walsh", torch.bfloat16, 484, 2.0)):
+        torch.manual_seed(ck.seed + 23)
+        par = front.split("-")[1]
+        if front.startswith("dense"):
+            first = [LogicDense(8, 2 * per_class, device="cpu", weight_init="random", parametrization=par)]
+            x = (torch.rand(32, 8) > 0.5).float()
+        else:
+            kernels = 2 * per_class // 121
+            first = [LogicConv2d(in_dim=(12, 12), device="cpu", channels=1, num_kernels=kernels, tree_depth=1, receptive_field_size=2,
+                                 weight_init="random", parametrization=par), torch.nn.Flatten()]
+            x = (torch.rand(16, 1, 12, 12) > 0.3).float()
+        with torch.no_grad():
+            for p_ in first[0].parameters():
+                if par == "raw":
+                    p_[:, 15] += 3.0          # mostly-true gates so that the counts are large
+                    p_[:, 7] += 2.5
+                else:
+                    p_[:, 0] += 1.0
+        m16 = torch.nn.Sequential(*_copy.deepcopy(first), _GS3(2, tau, device="cpu")).to(dt).eval()
+        m32 = _copy.deepcopy(m16).float().eval()
+        case = {"kind": "converted-model", "layer": front + " + GroupSum", "dtype": str(dt), "neurons_per_class": per_class, "tau": tau}
+        ck.case(case, nontrivial=True, kind="converted-model")
+        try:
+            with torch.no_grad():
+                got = m16(x.to(dt)).double()
+                want = m32(x).double()
+        except Exception as e:
+            ck.disagree("eval mode of a model converted to another floating dtype raises", case, observed=repr(e)[:200],
+                        signature={"what": "converted-model", "kind": "error"})
+            continue
+        if not torch.equal(got, want):
+            j = int((got != want).any(1).nonzero()[0])
+            ck.disagree("eval output of a converted model is not the per-class count divided by tau (count accumulated in 16 bits)",
+                        dict(case, differing_scores=int((got != want).sum())), expected=want[j].tolist(), observed=got[j].tolist(),
+                        signature={"what": "converted-model", "kind": "count"})
     return ck.finish()
 
 
